@@ -43,11 +43,16 @@ UNITS = [
         # V layer
         "MAXNVELT", "VSFIELDMAX", "MAX_ORDER", "MAX_FIELD_SIZE", "VSNAMELENMAX", "VGNAMELENMAX", "FIELDNAMELENMAX",
         "FULL_INTERLACE", "NO_INTERLACE", "VSET_VERSION", "VSET_OLD_VERSION", "VSET_NEW_VERSION",
+        "VG_ATTR_SET", "VGDESCTAG", "VSDESCTAG", "VSDATATAG",
         "MAX_FILE", "H4_MAX_VAR_DIMS", "H4_MAX_NC_NAME", "H4_MAX_NC_ATTRS", "H4_MAX_NC_DIMS", "H4_MAX_NC_VARS",
         # coders
         "COMP_CODE_NONE", "COMP_CODE_RLE", "COMP_CODE_NBIT", "COMP_CODE_SKPHUFF", "COMP_CODE_DEFLATE",
         "MFGR_INTERLACE_PIXEL", "MFGR_INTERLACE_LINE", "MFGR_INTERLACE_COMPONENT",
     ], []),
+    ("Mfan", '#include "hdf_priv.h"\n#include "mfan_priv.h"\n',
+     ["AN_DATA_LABEL", "AN_DATA_DESC", "AN_FILE_LABEL", "AN_FILE_DESC", "ANATOM_HASH_SIZE",
+      ("TAG_DATA_LABEL", "ANatype2tag(AN_DATA_LABEL)"), ("TAG_DATA_DESC", "ANatype2tag(AN_DATA_DESC)"),
+      ("TAG_FILE_LABEL", "ANatype2tag(AN_FILE_LABEL)"), ("TAG_FILE_DESC", "ANatype2tag(AN_FILE_DESC)")], []),
     ("Crle", '#include "hdf_priv.h"\n#include "%s/crle.c"\n' % HS,
      ["RUN_MASK", "COUNT_MASK", "RLE_BUF_SIZE", "RLE_MIN_RUN", "RLE_MAX_RUN", "RLE_MIN_MIX", "RLE_NIL"], []),
     ("Atom", '#include "hdf_priv.h"\n#include "%s/atom.c"\n' % HS,
@@ -296,7 +301,8 @@ def main():
             open(p, "w").write(txt)
         digest[fn] = hashlib.sha256(txt.encode()).hexdigest()[:16]
     for rel in ["hdf/src/hfile_priv.h", "hdf/src/hdf.h", "hdf/src/htags.h", "hdf/src/hlimits.h", "hdf/src/hntdefs.h", "hdf/src/crle.c",
-                "hdf/src/crle_priv.h", "hdf/src/atom.c", "hdf/src/bitvect.c", "hdf/src/bitvect_priv.h", "hdf/src/vg_priv.h", "hdf/src/hcomp.h"]:
+                "hdf/src/crle_priv.h", "hdf/src/atom.c", "hdf/src/bitvect.c", "hdf/src/bitvect_priv.h", "hdf/src/vg_priv.h", "hdf/src/hcomp.h", "hdf/src/mfan_priv.h", "hdf/src/mfan.c", "hdf/src/vgp.c", "hdf/src/vg.c",
+                "hdf/src/dfkswap.c", "hdf/src/dfknat.c", "hdf/src/dfconv.c"]:
         p = os.path.join(repo, rel)
         if os.path.exists(p):
             sources[rel] = sha(p)
